@@ -72,7 +72,7 @@ def check_validate(sh, fa, V, case, d, kind, rng):
                 results[(strict, dtn)] = None
                 continue
             results[(strict, dtn)] = exp
-            schema_arg = copy.deepcopy(js)
+            schema_arg = case.setdefault("shared_schema", copy.deepcopy(js))
             if rng.random() < 0.5:
                 if parsed is None:
                     st, parsed = guard(fa.parse_schema, copy.deepcopy(js))
@@ -109,7 +109,7 @@ def check_writers(sh, fa, case, d, conf, dtn, rng):
     info = {"schema": js, "datum": d, "disable_tuple_notation": dtn, "conforms": conf}
     if conf:
         out = io.BytesIO()
-        st, err = guard(fa.schemaless_writer, out, copy.deepcopy(js), d, disable_tuple_notation=dtn)
+        st, err = guard(fa.schemaless_writer, out, case.setdefault("shared_schema", copy.deepcopy(js)), d, disable_tuple_notation=dtn)
         if st == "exc":
             sh.violation("validate-accepts-writer-rejects", "schemaless_writer raised %s on a datum validate accepts" % exc_name(err), info)
             return
@@ -126,7 +126,7 @@ def check_writers(sh, fa, case, d, conf, dtn, rng):
             return
         if rng.random() < 0.3:
             fo = io.BytesIO()
-            st, err = guard(fa.writer, fo, copy.deepcopy(js), [d, d], validator=True, disable_tuple_notation=dtn, codec=rng.choice(["null", "deflate"]))
+            st, err = guard(fa.writer, fo, case.setdefault("shared_schema", copy.deepcopy(js)), [d, d], validator=True, disable_tuple_notation=dtn, codec=rng.choice(["null", "deflate"]))
             if st == "exc":
                 sh.violation("validate-accepts-writer-rejects", "writer(validator=True) raised %s" % exc_name(err), info)
                 return
@@ -140,7 +140,7 @@ def check_writers(sh, fa, case, d, conf, dtn, rng):
 
         good = case["datum"]
         S = io.BytesIO()
-        st, W = guard(Writer, S, copy.deepcopy(js), validator=True, options={"disable_tuple_notation": dtn}, sync_interval=rng.choice([1, 10**6]))
+        st, W = guard(Writer, S, case.setdefault("shared_schema", copy.deepcopy(js)), validator=True, options={"disable_tuple_notation": dtn}, sync_interval=rng.choice([1, 10**6]))
         if st == "exc":
             sh.violation("writer-create-failed", exc_name(W), info)
             return
@@ -169,7 +169,7 @@ def check_writers(sh, fa, case, d, conf, dtn, rng):
         sh.count("writer_rejections_checked")
         if rng.random() < 0.3:
             so = io.StringIO()
-            st, err = guard(fa.json_writer, so, copy.deepcopy(js), [d], validator=True, disable_tuple_notation=dtn)
+            st, err = guard(fa.json_writer, so, case.setdefault("shared_schema", copy.deepcopy(js)), [d], validator=True, disable_tuple_notation=dtn)
             if st == "ok":
                 sh.violation("validating-writer-accepts-nonconforming", "json_writer(validator=True) accepted a datum validate rejects", info)
                 return
